@@ -11,6 +11,7 @@ def main (args : List String) : IO UInt32 := do
   match args with
   | ["rwmutex"] => loop stdin stdout RWMutexD.stepModel (RWMutex.Mutex.init 0); return 0
   | ["engine"] => loop stdin stdout EngineD.step {}; return 0
+  | ["snapsched"] => loop stdin stdout EngineD.step {}; return 0
   | ["formats"] => loop stdin stdout EngineD.step {}; return 0
   | ["locktable"] => loop stdin stdout EngineD.step {}; return 0
   | ["import"] => loop stdin stdout EngineD.step {}; return 0
